@@ -943,7 +943,10 @@ class FileEmitter:
                     b = self.weave_body(b, spec, it)
                 self.out.add(indent + b + "\n\n", dict(meta_base, part="body"))
         self.dropped_hints = getattr(self, "dropped_hints", [])
-        bh = hashlib.sha1(re.sub(r"\s+", " ", (R.text(it.sig) + (body or ""))).encode()).hexdigest()[:16]
+        # the hash that tells "this function changed" ignores white space and the NAMES of the parameters (a pure parameter rename is not a change)
+        htxt = R.text(it.sig) + (body or "")
+        for pi, (pname, _) in enumerate(pn or []): htxt = re.sub(r"(?<![\w.])%s\b" % re.escape(pname), "__p%d" % pi, htxt)
+        bh = hashlib.sha1(re.sub(r"\s+", " ", htxt).encode()).hexdigest()[:16]
         ctx.fn_index.append({"file": self.rel, "impl": ik, "fn": it.name, "line": it.line, "external_body": bool(ext or self.stub), "stubbed": bool(stub_this and not ext), "forced_stub_reason": forced_reason,
                              "body_hash": bh, "hints_dropped": list(self.dropped_hints) if (body is not None and not ext and not stub_this) else [],
                              "body_text": re.sub(r"\s+", " ", body or "")[:6000],
